@@ -257,13 +257,19 @@ fn case_generic<F: Fl>(c: &Case, obs: &mut Obs) -> PResult {
             }
         }
         // shift by a constant k (k on the scale of the spread, so that x + k stays conditioned)
-        let k = c.shift_code as f64 / 64.0 * ra.sd * 8.0;
+        // (a non-dyadic multiple of the spread, so that x + k is rounded and exact ties between statistics are broken)
+        let k = c.shift_code as f64 / 64.0 * ra.sd * 8.0 * 1.1;
         let kf = F::from64(k);
         if kf.to64() != 0.0 && kf.to64().is_finite() {
             let y: Vec<F> = a.iter().map(|x| *x + kf).collect();
             let y64: Vec<f64> = y.iter().map(|x| x.to64()).collect();
             let ry = MeanRef::new(&y64);
-            if ry.conditioned::<F>(0) {
+            // data at the top of the magnitude range: the shifted squares must still fit the float type
+            let ymax = y64.iter().fold(0.0f64, |m, v| m.max(v.abs()));
+            let fits = y64.iter().all(|v| v.is_finite()) && (y64.len() as f64) * ymax * ymax < F::max_value().to64() / 8.0;
+            if !fits {
+                obs.exclude("shift: n x^2 of the shifted data would overflow the float type");
+            } else if ry.conditioned::<F>(0) {
                 obs.eval();
                 let cry = crit_candidates(dof, &c.conf)[0];
                 let tol_y = ry.tol_bound::<F>(&cry, ry.mean.abs() + cry.c.abs() * ry.se, 0);
@@ -285,6 +291,30 @@ fn case_generic<F: Fl>(c: &Case, obs: &mut Obs) -> PResult {
                             }
                         }
                         obs.class("shift/checked");
+                        // the same for the unpaired comparison: shifting sample a by k shifts the interval of a - b by k
+                        if rb.conditioned::<F>(0) {
+                            if let (Some(ux), Some(uy)) = (unpaired_ref::<F>(&ra, &rb, &c.conf), unpaired_ref::<F>(&ry, &rb, &c.conf)) {
+                                obs.eval();
+                                match unpaired::<F>(&c.conf, &y, &b_full) {
+                                    Out::Ok(iy) => {
+                                        let (_, l0, h0) = bounds(iu);
+                                        let (_, l1, h1) = bounds(&iy);
+                                        let (ex_l, ex_h) = (ux.diff - ux.c * ux.se, ux.diff + ux.c * ux.se);
+                                        let (ey_l, ey_h) = (uy.diff - uy.c * uy.se, uy.diff + uy.c * uy.se);
+                                        for (x0, y0, ex, ey) in [(l0, l1, ex_l, ey_l), (h0, h1, ex_h, ey_h)] {
+                                            if x0.is_finite() {
+                                                let disc = ((ey - kk) - ex).abs();
+                                                let d = ((y0 - kk) - x0).abs();
+                                                let tol = ux.tol + uy.tol + disc + 2.0 * F::U * kk.abs();
+                                                ensure!(d <= tol, format!("C16/shift/unpaired/{kn}"), "{}: shifting sample a by {kk:e} moves an unpaired bound from {x0:e} to {y0:e}; after subtracting the shift the difference is {d:e} > tol {tol:e}", F::NAME);
+                                            }
+                                        }
+                                        obs.class("shift/unpaired-checked");
+                                    }
+                                    o => return crate::engine::fail("C16/shift/rejected", o.describe()),
+                                }
+                            }
+                        }
                         obs.nontrivial(&("shift", F::IS32, c.shift_code, c.conf.kind, c.conf.l().to_bits(), crate::engine::hash_of(&y.iter().map(|x| x.bits64()).collect::<Vec<_>>())));
                     }
                     o => return crate::engine::fail("C16/shift/rejected", o.describe()),
@@ -420,8 +450,9 @@ pub fn perm_case(c: &PermCase, obs: &mut Obs) -> PResult {
 pub fn strategy(max_n: usize) -> impl Strategy<Value = Case> {
     any::<bool>().prop_flat_map(move |f32_| {
         let er = if f32_ { -20i32..=20 } else { -150i32..=150 };
-        (gen::sample_of(f32_, max_n, false), gen::sample_of(f32_, max_n, false), gen::positive_sample_of(f32_, max_n.min(500)), gen::conf(), er, -64i32..=64, prop::collection::vec(any::<u16>(), 0..64))
-            .prop_map(|(a, b, p, conf, e, shift_code, perm)| Case { a, b, p, conf, e, shift_code, perm })
+        let pair = prop_oneof![19 => (gen::sample_of(f32_, max_n, false), gen::sample_of(f32_, max_n, false)).boxed(), 1 => crate::props::c04::tied_sd_pair(f32_).boxed()];
+        (pair, gen::positive_sample_of(f32_, max_n.min(500)), gen::conf(), er, -64i32..=64, prop::collection::vec(any::<u16>(), 0..64))
+            .prop_map(|((a, b), p, conf, e, shift_code, perm)| Case { a, b, p, conf, e, shift_code, perm })
     })
 }
 
@@ -445,7 +476,7 @@ pub fn run(run: &mut Run) {
         PermCase { f32: f32_, values: crate::fl::xs(&vals), conf }
     });
     run.prop("all_permutations", run.tier.pick(3_000, 120_000), s, perm_case);
-    for c in ["scaling/arithmetic/bit-exact", "scaling/paired/bit-exact", "scaling/unpaired/bit-exact", "scaling/harmonic", "scaling/geometric", "negation/bit-exact", "reorder/non-identity", "shift/checked", "reorder/all-permutations", "f32/two", "f32/upper", "f64/lower"] {
+    for c in ["scaling/arithmetic/bit-exact", "scaling/paired/bit-exact", "scaling/unpaired/bit-exact", "scaling/harmonic", "scaling/geometric", "negation/bit-exact", "reorder/non-identity", "shift/checked", "shift/unpaired-checked", "reorder/all-permutations", "f32/two", "f32/upper", "f64/lower"] {
         run.require_class(c);
     }
     run.assumptions.push("scaling is required to be bit-exact only where no intermediate quantity leaves the normal floating-point range (data in [2^-200, 2^200] resp. [2^-25, 2^25], variance-level quantities checked from the exact statistics); other cases are counted as excluded".into());
